@@ -24,6 +24,7 @@ Explain(e) ==
          [] e.act = "W" -> Write(e.r)
          [] e.act = "U" -> Unlock(e.r)
          [] e.act = "G" -> SaveReq(e.r)
+         [] e.act = "D" -> Close(e.r)
          [] OTHER -> FALSE
     /\ lock' = e.lock /\ clock' = e.clock
 
